@@ -8,6 +8,7 @@ import XyzModel.Sampler
 import XyzModel.CropFS
 import XyzModel.DrvNum
 import XyzModel.DrvScript
+import XyzModel.DrvData
 /-! JSON-lines driver over the executable models (DESIGN.md Appendix B). One request per line, one reply per line. -/
 open Lean
 
@@ -421,6 +422,9 @@ def handle (j : Json) : Json :=
     | some r => r
     | none =>
     match DrvScript.handleScript o j with
+    | some r => r
+    | none =>
+    match DrvData.handleData o j with
     | some r => r
     | none => err s!"bad-op {o}"
 
